@@ -279,6 +279,27 @@ let run_case (line : string) =
    | "TAB" ->
        let text = next_str () in
        out_tab (prepare_text text)
+   | "OPTS" ->
+       (* OPTS <global opts> <has project file> [5 x (present value)] *)
+       let g = next_opts () in
+       let has = next_int () <> 0 in
+       let proj =
+         if not has then None
+         else begin
+           let opt_int () = if next_int () <> 0 then Some (z_of_z (ZA.of_int (next_int ()))) else None in
+           let opt_bool () = if next_int () <> 0 then Some (next_int () <> 0) else None in
+           let a = opt_int () in let b1 = opt_bool () in let c = opt_bool () in let d = opt_bool () in let e = opt_bool () in
+           Some { y_stack_limit = a; y_include_comments = b1; y_flipper_commands = c; y_supress = d; y_use_project = e }
+         end in
+       let js_o (o : options) =
+         Buffer.add_char b '['; js_z o.stack_limit;
+         List.iter (fun x -> Buffer.add_string b (if x then ",true" else ",false"))
+           [o.include_comments; o.flipper_commands; o.supress_command_not_exist; o.use_project_config];
+         Buffer.add_char b ']' in
+       Buffer.add_string b "{\"status\":\"OK\",\"effective\":"; js_o (calculate_options g proj);
+       Buffer.add_string b ",\"rewritten\":";
+       (match rewritten_config g proj with None -> Buffer.add_string b "null" | Some o -> js_o o);
+       Buffer.add_string b "}"
    | "ISVAR" ->
        let s = next_str () in
        let c = next_int () <> 0 in
